@@ -30,6 +30,7 @@ type tcase struct {
 	real   outcome
 	stream string
 	noGc   bool // gc is run on it only when model and VM disagree (exhaustive stream: a sample goes to gc)
+	finding string // replay of this recorded finding: its breaks are known
 }
 
 func run(c *hx.Ctx) error {
@@ -39,6 +40,13 @@ func run(c *hx.Ctx) error {
 		return replay(c)
 	}
 	var cases []*tcase
+	for _, f := range c.Findings { // recorded findings are replayed first
+		if i := strings.Index(f.Minimal, "P "); i >= 0 {
+			if p, err := parseAbstract(f.Minimal[i:]); err == nil {
+				cases = append(cases, &tcase{p: p, stream: "finding", finding: f.ID})
+			}
+		}
+	}
 	for i := 0; i < c.N(200, 3000); i++ {
 		cases = append(cases, &tcase{p: genProg(c.R, i%3 == 2), stream: "uniform"})
 	}
@@ -102,6 +110,10 @@ func checkCases(c *hx.Ctx, cases []*tcase, shrink bool) error {
 	}
 	// 4. compare
 	seen := map[string]bool{} // shrink the first break of each kind only
+	addBreak := func(t *tcase, b proto.Break) {
+		b.Finding = t.finding
+		res.AddBreak(b)
+	}
 	var walks, walkWant []string
 	for i, t := range cases {
 		key := t.p.abstract()
@@ -117,12 +129,12 @@ func checkCases(c *hx.Ctx, cases []*tcase, shrink bool) error {
 		human := "abstract: " + key + "\n" + t.src
 		// the property's own oracle, independent of the model
 		if strings.Contains(t.real.Extra, "Next()") {
-			b := proto.Break{Kind: "property", Name: "next-terminates", Case: "C12 frames " + fmt.Sprint(fuel) + " " + key, Human: human, Impl: real, Model: "following Next() reaches nil"}
-			if shrink && !seen[b.Name] {
+			b := proto.Break{Kind: "property", Name: "next-terminates", Case: "C12 frames " + fmt.Sprint(fuel) + " " + key + t.p.styleSuffix(), Human: human, Impl: real, Model: "following Next() reaches nil"}
+			if shrink && t.finding == "" && !seen[b.Name] {
 				seen[b.Name] = true
 				b = shrinkDoc(t.p, b, func(o outcome) bool { return strings.Contains(o.Extra, "Next()") })
 			}
-			res.AddBreak(b)
+			addBreak(t, b)
 		} else if g, ok := gcRes[i]; ok {
 			want := "out=" + dash(g.Events) + " res=" + gcForm(g.Res)
 			got := "out=" + dash(t.real.Events) + " res=" + gcForm(t.real.Res)
@@ -130,12 +142,12 @@ func checkCases(c *hx.Ctx, cases []*tcase, shrink bool) error {
 				got += " extra=" + t.real.Extra
 			}
 			if got != want {
-				b := proto.Break{Kind: "property", Name: "same-behaviour-as-gc", Case: "C12 frames " + fmt.Sprint(fuel) + " " + key, Human: human, Impl: got, Model: "gc: " + want}
-				if shrink && !seen[b.Name] {
+				b := proto.Break{Kind: "property", Name: "same-behaviour-as-gc", Case: "C12 frames " + fmt.Sprint(fuel) + " " + key + t.p.styleSuffix(), Human: human, Impl: got, Model: "gc: " + want}
+				if shrink && t.finding == "" && !seen[b.Name] {
 					seen[b.Name] = true
 					b = shrinkGc(c, t.p, b)
 				}
-				res.AddBreak(b)
+				addBreak(t, b)
 			}
 			// validation of the specification (Spec/GoDefer.lean) against gc
 			if godefer != nil {
@@ -146,12 +158,12 @@ func checkCases(c *hx.Ctx, cases []*tcase, shrink bool) error {
 			}
 		} else {
 			if clause := docOracle(t); clause != "" {
-				b := proto.Break{Kind: "property", Name: clause, Case: "C12 frames " + fmt.Sprint(fuel) + " " + key, Human: human, Impl: real, Model: "documented behaviour of Stop/Fatal/PanicError"}
-				if shrink && !seen[b.Name] {
+				b := proto.Break{Kind: "property", Name: clause, Case: "C12 frames " + fmt.Sprint(fuel) + " " + key + t.p.styleSuffix(), Human: human, Impl: real, Model: "documented behaviour of Stop/Fatal/PanicError"}
+				if shrink && t.finding == "" && !seen[b.Name] {
 					seen[b.Name] = true
 					b = shrinkDoc(t.p, b, func(o outcome) bool { return docOracle(&tcase{p: t.p, real: o}) == clause })
 				}
-				res.AddBreak(b)
+				addBreak(t, b)
 			}
 		}
 		// correspondence: the model of the accessor layer (Pub.walk) against a walk of the real chain
@@ -163,12 +175,12 @@ func checkCases(c *hx.Ctx, cases []*tcase, shrink bool) error {
 		// correspondence: the model of the frame machine against the VM
 		if frames != nil {
 			if want := modelOutcome(frames[i]); want != noMarker(real) {
-				b := proto.Break{Kind: "correspondence", Name: "Frames.run vs scriggo Run", Case: "C12 frames " + fmt.Sprint(fuel) + " " + key, Human: human, Impl: real, Model: frames[i]}
-				if shrink && !seen[b.Name] {
+				b := proto.Break{Kind: "correspondence", Name: "Frames.run vs scriggo Run", Case: "C12 frames " + fmt.Sprint(fuel) + " " + key + t.p.styleSuffix(), Human: human, Impl: real, Model: frames[i]}
+				if shrink && t.finding == "" && !seen[b.Name] {
 					seen[b.Name] = true
 					b = shrinkModel(c, t.p, b)
 				}
-				res.AddBreak(b)
+				addBreak(t, b)
 			}
 		}
 	}
@@ -249,7 +261,7 @@ func candidates(p *prog) []*prog {
 	var out []*prog
 	for i, f := range p.Funcs {
 		for j := range f {
-			q := &prog{Style: p.Style, Native: p.Native}
+			q := &prog{Style: p.Style, Native: p.Native, forceNative: p.forceNative}
 			for k, g := range p.Funcs {
 				if k == i {
 					h := append(append([]instr{}, g[:j]...), g[j+1:]...)
@@ -292,7 +304,7 @@ func shrinkModel(c *hx.Ctx, p *prog, b proto.Break) proto.Break {
 		}
 	}
 	_, real, ans := differs(cur)
-	b.Case = fmt.Sprintf("C12 frames %d %s", fuel, cur.abstract())
+	b.Case = fmt.Sprintf("C12 frames %d %s", fuel, cur.abstract()+cur.styleSuffix())
 	b.Human = "abstract: " + cur.abstract() + "\n" + cur.render("", "h")
 	b.Impl, b.Model = real, ans
 	return b
@@ -313,7 +325,7 @@ func shrinkDoc(p *prog, b proto.Break, failing func(outcome) bool) proto.Break {
 			}
 		}
 	}
-	b.Case = fmt.Sprintf("C12 frames %d %s", fuel, cur.abstract())
+	b.Case = fmt.Sprintf("C12 frames %d %s", fuel, cur.abstract()+cur.styleSuffix())
 	b.Human = "abstract: " + cur.abstract() + "\n" + cur.render("", "h")
 	b.Impl = runScriggo(cur.render("", "h")).String()
 	return b
@@ -355,7 +367,7 @@ func shrinkGc(c *hx.Ctx, p *prog, b proto.Break) proto.Break {
 		}
 		cur, got, want = qs[i], g, "gc: "+w
 	}
-	b.Case = fmt.Sprintf("C12 frames %d %s", fuel, cur.abstract())
+	b.Case = fmt.Sprintf("C12 frames %d %s", fuel, cur.abstract()+cur.styleSuffix())
 	b.Human = "abstract: " + cur.abstract() + "\n" + cur.render("", "h")
 	b.Impl, b.Model = got, want
 	return b
